@@ -160,9 +160,18 @@ theorem handleExtHandshake_snd (m : M) (k : Nat) (hm : Bool) (sz : Nat) (hp : Bo
   unfold handleExtHandshake; dsimp only; repeat' split
   all_goals simp
 
+theorem hmdStart_snd (m : M) : (hmdStart m).2 = m.2 := by
+  unfold hmdStart; split <;> simp
+
+theorem hmdAdopt_snd (m : M) : (hmdAdopt m).2 = m.2 := by
+  unfold hmdAdopt; dsimp only; repeat' split
+  all_goals simp [hmdStart_snd]
+
 theorem handleMetadataData_snd (m : M) (k i len : Nat) (g : Bool) : (handleMetadataData m k i len g).2 = m.2 := by
-  unfold handleMetadataData; dsimp only; repeat' split
-  all_goals simp
+  rw [handleMetadataData_eq]; split
+  · rfl
+  unfold hmdBlock; dsimp only; repeat' split
+  all_goals simp [hmdAdopt_snd]
 
 theorem handleMetadataReject_snd (m : M) (k : Nat) : (handleMetadataReject m k).2 = m.2 := by
   unfold handleMetadataReject; split <;> simp
